@@ -699,6 +699,7 @@ def reachdist(CIJ, ensure_binary=True):
 
     if ensure_binary:
         CIJ = binarize(CIJ)
+    CIJ = np.array(CIJ, dtype=float)  # distances below are set to inf
 
     R = CIJ.copy()
     D = CIJ.copy()
